@@ -656,6 +656,18 @@ def check_geometry(case):
     coords = {"source_position": src, "sample_position": smp, "position": pos}
     cont = make_container(coords, ops, case["container"])
     _compare_all(run_components(cont), ref, unit, "scippneutron.<name>(" + case["container"] + ")")
+    # the three position accessors hand back exactly what was supplied
+    import scipp as sc
+    import scippneutron as scn
+
+    for name, fn in (("source_position", scn.source_position), ("sample_position", scn.sample_position),
+                     ("position", scn.position)):
+        with attributed(f"scippneutron.{name}({case['container']})"):
+            got = fn(cont)
+        if not sc.identical(got, coords[name]):
+            raise Violation("accessor", f"scippneutron.{name}({case['container']}) does not return the "
+                                        f"{name} coordinate that was supplied: {got.values.tolist()} vs "
+                                        f"{coords[name].values.tolist()}")
     # ... and again after the beamline in the *same* object has been moved (cyclic permutation of the
     # components of every position): a result remembered from the first query would now be stale
     # (seeded/C03-s4).
